@@ -218,11 +218,113 @@ fn payload_function_sweeps(ctx: &mut Ctx, cfg: &'static dyn Config) {
     }
 }
 
+/// whole in-order groups up to the largest count the sentence format can express: the sequencing
+/// arithmetic must survive fragment numbers up to 255
+fn long_groups(ctx: &mut Ctx, cfg: &'static dyn Config) {
+    for n in (2u32..=12).chain([63, 64, 100, 127, 128, 129, 200, 253, 254, 255]) {
+        for id in [None, Some(3u32)] {
+            let mut lines: Vec<Line> = (1..=n).map(|k| Line::new(build::line(n, k, id, b"A", &[ALPHABET[(k & 63) as usize]], 0), false)).collect();
+            // and what may follow a delivered group of that size
+            lines.push(Line::new(build::line(n, n, id, b"A", b"5", 0), false));
+            lines.push(Line::new(build::line(255, 255, id, b"A", b"5", 0), false));
+            lines.push(Line::new(build::line(255, 1, id, b"A", b"5", 0), false));
+            lines.push(Line::new(build::line(255, 255, id, b"A", b"5", 0), true));
+            ctx.sweep_case("long-groups", cfg, &Input::History { lines }, check);
+        }
+    }
+    ctx.mark_exhaustive("long-groups", "complete in-order groups of 2..=12, 63, 64, 100, 127..129, 200, 253, 254 and 255 fragments (one character each), with and without a sequence id, followed by stale and restarting fragments");
+}
+
+/// Inputs far beyond any protocol length (hundreds of kilobytes). A stack overflow or an abort kills
+/// the process, so each is run in a child process (this binary, `--replay`); death by signal is a
+/// violation with the input as replay file.
+fn huge_inputs(ctx: &mut Ctx) {
+    let sub = "huge-inputs";
+    let exe = match std::env::current_exe() {
+        Ok(e) => e,
+        Err(_) => return,
+    };
+    let dir = format!("{}/target/huge", crate::engine::VERIF_DIR);
+    let _ = std::fs::create_dir_all(&dir);
+    let mut inputs: Vec<(String, Input)> = Vec::new();
+    for &nchars in [30_000usize, 150_000, 400_000].iter() {
+        for &(t, hdr_bits) in [(12u8, 72usize), (14, 40)].iter() {
+            for fillbyte in [0x00u8, 0x82, 0xff] {
+                // text of nchars characters: all '@' (zero bits), all ' ' (100000), all '?'
+                let mut b = vec![fillbyte; (hdr_bits + 6 * nchars + 7) / 8];
+                if fillbyte == 0x82 {
+                    // 100000 repeated: spaces
+                    for i in 0..nchars {
+                        set_bits(&mut b, hdr_bits + 6 * i, 6, 32);
+                    }
+                }
+                set_bits(&mut b, 0, 6, t as u64);
+                inputs.push((format!("type {} with {} text characters of pattern {:#04x}", t, nchars, fillbyte), Input::Payload { bytes: b }));
+            }
+        }
+        for t in [6u8, 8, 17, 5, 21] {
+            let mut b = vec![0xa5u8; nchars];
+            set_bits(&mut b, 0, 6, t as u64);
+            inputs.push((format!("type {} of {} bytes", t, nchars), Input::Payload { bytes: b }));
+        }
+        inputs.push((format!("unarmor of {} characters", nchars), Input::Unarmor { data: vec![b'w'; nchars], fill: 5 }));
+        for first in [b'<', b'>', b'8', b'5'] {
+            let mut p = vec![b'0'; nchars];
+            p[0] = first;
+            inputs.push((format!("one sentence with a payload of {} characters starting with {:?}", nchars, first as char), Input::History { lines: vec![Line::new(build::line(1, 1, None, b"A", &p, 0), true), Line::new(build::line(2, 1, None, b"A", &p, 0), true), Line::new(build::line(2, 2, None, b"A", &p, 0), true)] }));
+        }
+        inputs.push((format!("one line of {} arbitrary bytes", nchars), Input::History { lines: vec![Line::new((0..nchars).map(|i| (i * 31 % 251) as u8).collect(), true)] }));
+    }
+    for (i, (what, input)) in inputs.iter().enumerate() {
+        if ctx.sub_failed(sub) {
+            break;
+        }
+        let path = format!("{}/huge-{}.json", dir, i);
+        let body = serde_json::json!({"property": "C01", "sub": sub, "config": "all", "input": input.to_json()});
+        if std::fs::write(&path, body.to_string()).is_err() {
+            continue;
+        }
+        let out = std::process::Command::new(&exe).arg("C01").arg("--replay").arg(&path).env("AISVERIF_CHILD", "1").output();
+        ctx.cases += 1;
+        ctx.evals += 3;
+        ctx.nontrivial_by_construction += 1;
+        {
+            let st = ctx.subs.entry(sub.to_string()).or_default();
+            st.cases += 1;
+            st.evals += 3;
+        }
+        match out {
+            Ok(o) => match o.status.code() {
+                Some(0) => {}
+                Some(1) => {
+                    // an ordinary (caught) failure: safe to judge in this process, which records it
+                    for cfg in configs() {
+                        ctx.sweep_case(sub, cfg, input, check);
+                    }
+                }
+                other => {
+                    let tail = String::from_utf8_lossy(&o.stderr);
+                    ctx.record_violation(
+                        sub,
+                        &crate::adapter::STD,
+                        input.clone(),
+                        format!("{}: every call returns a result or an error value", what),
+                        format!("the process running it died ({}); stderr tail: {}", match other { Some(c) => format!("exit code {}", c), None => "killed by a signal - stack overflow or abort".to_string() }, crate::util::clip(&tail[tail.len().saturating_sub(300)..], 300)),
+                    );
+                }
+            },
+            Err(e) => ctx.notes.push(format!("huge-inputs: cannot start the child process: {}", e)),
+        }
+        let _ = std::fs::remove_file(&path);
+    }
+    ctx.mark_exhaustive(sub, "types 12 and 14 with 30 000 / 150 000 / 400 000 text characters of '@', ' ' and '?'; types 5, 6, 8, 17, 21 of that many bytes; unarmor of that many characters; sentences and raw lines of that length - each in a child process, all three builds");
+}
+
 pub fn run(ctx: &mut Ctx) {
     ctx.rule = "no panic (debug assertions and overflow checks on), and the call returns, in each of the three build configurations: (1) raw byte strings, uniform and ASCII-biased, as single lines and as histories; (2) structured histories of 1..12 lines from the sentence builder with valid checksums, n and k from {0,1,2,3,9,10,255} and random, ids, channels, payloads of every kind including the capacity edges 384/385 and 512/513, fill 0..5, decode random, optional textual damage with or without a re-fixed checksum; adversarial fragment histories; (3) the payload functions: unarmor for every short length x fill x contents and long / arbitrary strings, messages::parse for every type value x every length 0..140 x contents, reference-encoded messages with directed field values at any length; (4) every history up to length 3 (quick) / 4 (thorough) over 24 fragment symbols including the not-validly-numbered ones. Non-trivial = a history with at least one line passing the checksum gate, a payload call with non-empty input; distinct by (input); each configuration counted.".into();
     ctx.assumptions = vec![
         "abort-class failures other than panics (stack overflow, out of memory) would kill the runner and be reported as an infrastructure error; none is plausible in this loop-free code".into(),
-        "inputs longer than about 1100 payload characters are not generated".into(),
+        "between about 1100 payload characters and the fixed huge inputs (30 000 to 400 000 characters) no lengths are generated".into(),
         "a case running longer than 60 s is reported as non-termination".into(),
     ];
     if ctx.tier == crate::engine::Tier::Thorough {
@@ -233,7 +335,9 @@ pub fn run(ctx: &mut Ctx) {
     for cfg in configs() {
         state_sweep(ctx, cfg, l);
         payload_function_sweeps(ctx, cfg);
+        long_groups(ctx, cfg);
     }
+    huge_inputs(ctx);
     let n = ctx.tier.pick(40_000, 700_000);
     for cfg in configs() {
         // (1) raw bytes
